@@ -3,6 +3,7 @@ package mod
 import (
 	"context"
 	"fmt"
+	"maps"
 	"slices"
 	"strings"
 
@@ -194,7 +195,8 @@ func WithAnnotationPromoteCommon() Opts {
 					return err
 				}
 				if common == nil {
-					common = cur
+					// copy, the map belongs to the child manifest
+					common = maps.Clone(cur)
 				} else {
 					for k, v := range common {
 						if curV, ok := cur[k]; !ok || v != curV {
